@@ -312,6 +312,7 @@ class StepOperationExecutor(OperationExecutor[T]):
             # a Duration) is a failed strategy too
             should_retry: bool = retry_decision.should_retry
             delay_seconds = retry_decision.delay_seconds if should_retry else 0
+            too_short: bool = should_retry and delay_seconds < 1
         except Exception:  # noqa: BLE001
             # A strategy that fails cannot decide anything: the step's own failure is recorded and
             # raised as final, instead of leaving the call without any terminal record.
@@ -321,7 +322,7 @@ class StepOperationExecutor(OperationExecutor[T]):
                 self.operation_identifier.name,
             )
             retry_decision = RetryDecision.no_retry()
-            should_retry, delay_seconds = False, 0
+            should_retry, delay_seconds, too_short = False, 0, False
 
         if should_retry:
             logger.debug(
@@ -337,7 +338,7 @@ class StepOperationExecutor(OperationExecutor[T]):
             # a) those are used throughout the codebase, e.g. in wait(..) <- enforcement is done in context
             # b) they shouldn't know model specific details <- enforcement is done above
             # and c) this "issue" arises from retry-decision and we shouldn't push it down
-            if delay_seconds < 1:
+            if too_short:
                 logger.warning(
                     (
                         "Retry delay_seconds step for id: %s, name: %s,"
@@ -364,7 +365,7 @@ class StepOperationExecutor(OperationExecutor[T]):
             suspend_with_optional_resume_delay(
                 msg=(
                     f"Retry scheduled for {self.operation_identifier.operation_id}"
-                    f"in {retry_decision.delay_seconds} seconds"
+                    f"in {delay_seconds} seconds"
                 ),
                 delay_seconds=delay_seconds,
             )
